@@ -117,6 +117,15 @@ class C19(PropertyCheck):
             vals = [((v << (8 * byte)) | (rng.getrandbits(32) & ~(0xFF << (8 * byte)))) & 0xFFFFFFFF for v in range(256)]
             color(0, 16, 16, tiled_payload(0, 16, 16, vals), "rgba8-byte-sweep")
 
+        # RGBA8 boundary values: all zero, all ones, each byte alone at 0x00 / 0xFF / 0x01 / 0x80 (special-value fast paths)
+        vals = [0, 0xFFFFFFFF]
+        for byte in range(4):
+            for v in (0xFF, 0x01, 0x80, 0x7F):
+                vals += [v << (8 * byte), 0xFFFFFFFF ^ (v << (8 * byte))]
+        vals += [rng.getrandbits(32) for _ in range(64 - len(vals))]
+        rng.shuffle(vals)
+        color(0, 8, 8, tiled_payload(0, 8, 8, vals), "rgba8-byte-sweep")
+
         # 2. all 25 sizes x all listed formats, random payloads
         reps = 1 if not thorough else 8
         for rep_no in range(reps):
